@@ -242,6 +242,20 @@ inductive TI
   | tuple (es : List TI)
   | udt (fs : List TI)
 
+-- nesting depth of a type tree = recursion depth of readTypeInfo that built it
+mutual
+def tiDepth : TI → Nat
+  | .simple _ => 1
+  | .list e => tiDepth e + 1
+  | .map k v => max (tiDepth k) (tiDepth v) + 1
+  | .tuple es => tiDepthL es + 1
+  | .udt fs => tiDepthL fs + 1
+def tiDepthL : List TI → Nat
+  | [] => 0
+  | t :: r => max (tiDepth t) (tiDepthL r)
+end
+
+
 /-- props/C05.fix-7.diff: `if int(n)*k > len(f.buf) { panic(error) }` before the allocation (every
 element description needs at least k bytes); absent from the unchanged code -/
 def guardCount (fx : Bool) (need : Nat) : P Unit := fun st =>
